@@ -70,7 +70,8 @@ type Scenario struct {
 	Enc       string
 	Password  string
 	Username  string
-	Lo, Hi    int // acceptor limits
+	SeqReset  bool // Opts.MessageBuilders.SequenceResetBuilder is configured
+	Lo, Hi    int  // acceptor limits
 	CntIn     int
 	CntOut    int
 	Store     []Stored
@@ -126,7 +127,11 @@ func encOps(ops []Op) string {
 
 func (sc *Scenario) Line() string {
 	var sb strings.Builder
-	sb.WriteString("SESSION " + sc.Side + " " + strconv.Itoa(len(sc.Allowed)))
+	side := sc.Side
+	if sc.SeqReset {
+		side += "S"
+	}
+	sb.WriteString("SESSION " + side + " " + strconv.Itoa(len(sc.Allowed)))
 	for _, a := range sc.Allowed {
 		sb.WriteString(" " + hx(a))
 	}
@@ -291,6 +296,9 @@ func newRunner(sc *Scenario) (*runner, error) {
 	}
 	r.st = &store{Storage: mem, fail: fail, log: &r.log}
 	o := opts
+	if sc.SeqReset {
+		o.MessageBuilders.SequenceResetBuilder = fixgen.SequenceReset{}.New()
+	}
 	o.AllowedEncryptedMethods = map[string]struct{}{}
 	for _, a := range sc.Allowed {
 		o.AllowedEncryptedMethods[a] = struct{}{}
